@@ -1,12 +1,15 @@
 import MimeModel.Model.Json
 import MimeModel.Model.Charset
 import MimeModel.Gen.Sigs
+import MimeModel.Model.Lines
+import MimeModel.Model.Csv
 /-
   Hand-written models of the signature checks the extractor cannot translate
   (`Det.custom`): Text, Php, JSON/GeoJSON/HAR/GLTF, NdJSON, Tar, CRX, WebM, Mkv, and
   the helpers `dropLastLine`, `scanLine`, `tarParseOctal`, `tarChksum`.
-  Srt, Csv, Tsv depend on `time.Parse` / `encoding/csv` and are not modelled (`none`
-  from `customModel`: their real verdict is taken as an oracle).
+  (the line helpers are in Model/Lines.lean).  Csv and Tsv run the model of `encoding/csv` of
+  Model/Csv.lean.  Srt depends on `time.Parse` and is not modelled (`none` from `customModel`:
+  its real verdict is taken as an oracle).
 -/
 namespace Mime.Cust
 open Mime Mime.Json Mime.Charset
@@ -18,34 +21,6 @@ def binaryByte (b : Nat) : Bool :=
 /-- text.go `Text` -/
 def text (raw : Bytes) : Bool :=
   if fromBOM raw != csNone then true else !(raw.any binaryByte)
-
-/-- `lastIdx c b`: the largest index holding `c` -/
-def lastIdx (c : Nat) : Bytes → Option Nat
-  | [] => none
-  | a :: as =>
-    match lastIdx c as with
-    | some k => some (k + 1)
-    | none => if a == c then some 0 else none
-
-/-- text_csv.go `dropLastLine` -/
-def dropLastLine (b : Bytes) (lim : Nat) : Bytes :=
-  if lim == 0 || b.length < lim then b else
-  match b with
-  | [] => b
-  | _ :: t =>
-    match lastIdx 0x0A t with
-    | some j => b.take (j + 1)
-    | none => b
-
-/-- `bytes.Cut(b, "\n")` -/
-def cutNL : Bytes → Bytes × Bytes
-  | [] => ([], [])
-  | c :: cs => if c == 0x0A then ([], cs) else let (l, r) := cutNL cs; (c :: l, r)
-
-def dropCR (l : Bytes) : Bytes := if l.getLast? == some 0x0D then l.dropLast else l
-
-/-- text.go `scanLine` -/
-def scanLine (b : Bytes) : Bytes × Bytes := let (l, r) := cutNL b; (dropCR l, r)
 
 /-- the loop of `NdJSON`; returns `none` when a line is rejected, else (lines, objOrArr) -/
 def ndjsonLoop : Nat → Bytes → Nat → Nat → Option (Nat × Nat)
@@ -164,7 +139,9 @@ def customModel : Custom → Option (Bytes → Nat → Option Bool)
   | .crx => some (fun raw _ => crx raw)
   | .webm => some (fun raw _ => matroska raw kWebm)
   | .mkv => some (fun raw _ => matroska raw kMatroska)
-  | .srt | .csv | .tsv | .unknown => none
+  | .csv => some (fun raw lim => some (Csv.sv raw lim 0x2C))
+  | .tsv => some (fun raw lim => some (Csv.sv raw lim 0x09))
+  | .srt | .unknown => none
 
 /-- total evaluation used by theorems: unmodelled kinds are a parameter `ext` -/
 def custEval (ext : Custom → Bytes → Nat → Bool) : Custom → Bytes → Nat → Option Bool :=
